@@ -101,7 +101,10 @@ def rewrite_hash_imports(path):
 
 # files whose straight-line `async fn`s are lowered to plain functions (see deasync)
 DEASYNC = ["consensus/src/core.rs", "consensus/src/synchronizer.rs", "consensus/src/messages.rs", "consensus/src/mempool.rs",
-           "mempool/src/batch_maker.rs", "consensus/src/helper.rs", "mempool/src/helper.rs"]
+           "mempool/src/batch_maker.rs", "consensus/src/helper.rs", "mempool/src/helper.rs", "consensus/src/proposer.rs"]
+# run loops of the shape `loop { tokio::select! { .. } .. }` whose handlers never legitimately suspend: lowered with the
+# synchronous select (shims/tokio select_now!): the function returns when no branch is ready
+LOWER_LOOPS = {("mempool/src/batch_maker.rs", "run")}
 ASYNC_FN_RE = re.compile(r"\basync fn\s+(\w+)")
 
 
@@ -126,7 +129,7 @@ def _match_brace(s, i):
     raise ValueError("unbalanced braces")
 
 
-def deasync(path):
+def deasync(path, rel=""):
     """Mechanical lowering of `async fn f(args) -> T { body }` to
            fn f(args) -> ::tokio::Ready<T> { ::tokio::Ready((move || -> T { body' })()) }
     with every `.await` in body' replaced by `.vnow()` (poll exactly once; Pending is a hard error). In the shim environment every
@@ -151,7 +154,9 @@ def deasync(path):
             i += 1
         j = _match_brace(s, i)
         sig, body = s[m.start():i], s[i + 1:j]
-        if re.search(r"select!|spawn\(|\basync\b", body):
+        if (rel, m.group(1)) in LOWER_LOOPS:
+            body = body.replace("tokio::select!", "tokio::select_now!")
+        elif re.search(r"select!|spawn\(|\basync\b", body):
             kept.append(m.group(1))
             out.append(s[pos:j + 1])
             pos = j + 1
@@ -248,7 +253,7 @@ def main():
         for rel in DEASYNC:
             p = os.path.join(out, rel)
             if os.path.exists(p):
-                lowered, kept = deasync(p)
+                lowered, kept = deasync(p, rel)
                 report["deasync"][rel] = {"lowered": lowered, "kept_async": kept}
 
     # 4. attach harness modules (a private copy inside the overlay, so that Kani's in-place
